@@ -33,6 +33,7 @@ type Collector struct {
 	mu         sync.Mutex
 	Property   string
 	evals      int64
+	bulk       int64 // cases distinct by construction (enumerated sweeps too large to hash)
 	distinct   map[uint64]struct{}
 	labels     map[string]int64
 	known      map[string]int64
@@ -123,6 +124,16 @@ func (c *Collector) loadFindings() {
 func (c *Collector) Eval() {
 	c.mu.Lock()
 	c.evals++
+	c.mu.Unlock()
+}
+
+// Bulk counts n evaluations of an enumerated sweep whose cases are pairwise
+// distinct by construction and non-trivial by the property's rule; they are
+// added to distinct_nontrivial without being hashed.
+func (c *Collector) Bulk(n int64) {
+	c.mu.Lock()
+	c.evals += n
+	c.bulk += n
 	c.mu.Unlock()
 }
 
@@ -295,6 +306,7 @@ type fragment struct {
 	Property    string            `json:"property"`
 	Evaluations int64             `json:"evaluations"`
 	Distinct    int               `json:"distinct"`
+	Bulk        int64             `json:"bulk_distinct"`
 	HashFile    string            `json:"hash_file,omitempty"`
 	Labels      map[string]int64  `json:"labels"`
 	Known       map[string]int64  `json:"known"`
@@ -323,6 +335,7 @@ func (c *Collector) Flush() {
 		Property:    c.Property,
 		Evaluations: c.evals,
 		Distinct:    len(c.distinct),
+		Bulk:        c.bulk,
 		Labels:      c.labels,
 		Known:       c.known,
 		KnownText:   map[string]string{},
